@@ -339,6 +339,57 @@ class ViewWorld:
         self.keep.extend(self.data)
         self.keep.extend([self.dc, self.app, self.viewer])
         self.err = False
+        self._number_cids()
+
+    def _number_cids(self):
+        """component ids by creation serial: dataset after dataset in the order pixel, world, main,
+        derived; components added later continue from there (never after a restore: histories with
+        component ops have no `rst`)"""
+        self.cserial = {}
+        for d in self.data:
+            for c in data_cids(d):
+                self.cserial[id(c)] = len(self.cserial)
+                self.keep.append(c)
+        self.ncid = len(self.cserial)
+
+    def _new_cid(self, cid):
+        self.cserial[id(cid)] = self.ncid
+        self.ncid += 1
+        self.keep.append(cid)
+
+    def _comp_op(self, op):
+        """`ac ad rc rn ro rp` of family `combo` on the datasets of the viewer world"""
+        k = op[0]
+        if op[1] >= len(self.data):
+            return
+        d = self.data[op[1]]
+        comps = list(d.main_components) + [c for c in d.derived_components if c.parent is d]
+        self.restored = True   # datasets are per case, but be safe: never pool a world whose data changed
+        if k == 'ac':
+            self._new_cid(d.add_component(_values(op[2], self.ncid, d), 'n%i' % self.ncid))
+        elif k == 'ad':
+            lbl = 'v%i' % self.ncid
+            try:
+                d[lbl] = d.pixel_component_ids[0] + 1
+            except TypeError:
+                if not isinstance(d, RegionData):
+                    raise
+                d.add_component_link(d.pixel_component_ids[0] + 1, lbl)
+            self._new_cid(d.id[lbl])
+        elif k == 'rc':
+            if op[2] < len(comps):
+                d.remove_component(comps[op[2]])
+        elif k == 'rn':
+            if op[2] < len(comps):
+                comps[op[2]].label = comps[op[2]].label + 'r'
+        elif k == 'ro':
+            d.reorder_components(list(reversed(d.components)))
+        elif k == 'rp':
+            mains = list(d.main_components)
+            if op[2] < len(mains):
+                new = ComponentID('u%i' % self.ncid, parent=d)
+                d.update_id(mains[op[2]], new)
+                self._new_cid(new)
 
     def recycle(self):
         """empty the world through the public API; pool it if that leaves nothing behind"""
@@ -361,6 +412,10 @@ class ViewWorld:
             clean = (len(v.layers) == 0 and len(v.state.layers) == 0 and len(dc.data) == 0 and
                      len(dc.subset_groups) == 0 and not dc.hub._queue and not dc.hub._paused and
                      _none_props(v.state) == getattr(v, '_c18_fresh', None))
+            # ... and its pickers must listen like those of a fresh viewer will once they get data
+            for h in vars(v.state).values():
+                if isinstance(h, ComponentIDComboHelper) and h._hub is not None and h not in dc.hub._subscriptions:
+                    clean = False
             if clean:
                 ViewWorld._pool[self.cls] = (dc, self.app, v)
         except Exception:
@@ -443,6 +498,8 @@ class ViewWorld:
                         break
         elif k == 'rst':
             self.restore()
+        elif k in ('ac', 'ad', 'rc', 'rn', 'ro', 'rp'):
+            self._comp_op(op)
         elif k == 'vfl':
             hs = VP_HELPERS.get(self.cls, [])
             if op[1] < len(hs):
@@ -491,6 +548,7 @@ class ViewWorld:
                 self.keep.append(nd)
         self.dc, self.app, self.viewer = new_dc, app, new_v
         self.restored = True
+        self._number_cids()
 
     # ---- observation -----------------------------------------------------------------------
     def _sname(self, s):
@@ -567,17 +625,46 @@ VPT_ALPHA = [['vad', 0], ['vad', 1], ['vrd', 0], ['rem', 1], ['ng'], ['vfl', 0, 
              ['vfl', 1, 'pixel', False]]
 
 
+# `rc 0 1`: the second of main + derived — `t` of `std`, the derived component of `drv`, for `bare` the
+# component an earlier `ac 0 num` added.  (Removing the *last* numerical component of a dataset a
+# scatter / image / profile viewer shows makes layer-state callbacks raise IncompatibleAttribute —
+# `cmap_att` / `attribute` become None —, which is not a picker matter: not generated.)
+VP_REFILL_ALPHA = [['ac', 0, 'num'], ['ac', 1, 'cat'], ['rc', 0, 1], ['ro', 0], ['rn', 0, 0]]
+VP_EMPTY = [[['vrd', 0]], [['rem', 0], ['app', 0]], [['vps', 0, None]], [['vrl', 0, None]]]
+VP_REFILL_TMPLS = [('std', 'dask'), ('bare', 'std'), ('drv', 'std'), ('std', 'bare')]
+
+
+VP_TMPL_COMPS = {'std': (['cat', 'dt', 'num*'], 0), 'bare': (['num*'], 0), 'drv': (['num*'], 1), 'dask': (['cat', 'num*'], 0)}
+
+
+def _vp_comp_valid(tmpls, ops):
+    """the numerical component a dataset starts with (`num*`: what an image / profile / scatter layer
+    shows by default) is never removed — see VP_REFILL_ALPHA; removing the component an image layer
+    displays raises IncompatibleAttribute out of `remove_component` on the unchanged tree even when
+    other numerical components remain (layer artist, not picker: reported in design.md)"""
+    mains = [list(VP_TMPL_COMPS[t][0]) for t in tmpls]
+    for op in ops:
+        if op[0] in ('ac', 'rc', 'ro') and op[1] < len(tmpls):
+            d = op[1]
+            if op[0] == 'ac':
+                mains[d].append('num' if op[2] in ('num', 'dask') else op[2])
+            elif op[0] == 'ro':
+                mains[d].reverse()
+            elif op[2] < len(mains[d]):
+                del mains[d][op[2]]
+            if 'num*' not in mains[d]:
+                return False
+    return True
+
+
 def _picker_snaps(w):
     """the attribute pickers of the viewer state, in the snapshot format of family `combo`;
     component ids: numbered dataset after dataset in the order pixel, world, main, derived (for the
     standard 2-d dataset: 3i, 3i+1 pixel axes, 3i+2 `x`)"""
-    serial = {}
-    for d in w.data:
-        for c in data_cids(d):
-            serial[id(c)] = len(serial)
+    serial = w.cserial
     st = w.viewer.state
     out = []
-    for hname, prop in VP_HELPERS[w.cls]:
+    for hname, prop in VP_HELPERS.get(w.cls, []):
         h = getattr(st, hname)
         F = ['F'] + [bool(getattr(h, FLAG_ATTR[f])) for f in FLAG_NAMES]
         H = ['H']
@@ -601,7 +688,12 @@ def _picker_snaps(w):
             else:
                 ch.append(['c', serial.get(id(c), 'X')])
         sel = getattr(st, prop)
-        out.append([F, H, ['c'] + ch, ['s', None if sel is None else serial.get(id(sel), 'X')], ['e', False], ['q', 0]])
+        # a pooled viewer's helpers have latched on to the hub in an earlier case: while the helper is
+        # empty the two flags are reported as set (the Spec is about helpers that hold a dataset)
+        u = _sub_state(h, w.dc.hub)
+        if len(h._data) == 0:
+            u = ['u', True, True]
+        out.append([F, H, ['c'] + ch, ['s', None if sel is None else serial.get(id(sel), 'X')], ['e', False], ['q', 0], u])
     return out
 
 
@@ -848,7 +940,7 @@ class ViewRandom(View):
     def cases(self, tier, rng):
         nc = self.colors
         keys = list(VIEWERS)
-        n_cases = 500 if tier == "quick" else 20000
+        n_cases = 400 if tier == "quick" else 20000
         for i in range(n_cases):
             cls = keys[i % 4]
             nd = rng.choice([2, 3])
@@ -872,12 +964,39 @@ class VPick(View):
     name = "vpick"
     exhaustive = True
     batch = 40
-    budget_share = 0.6
+    budget_share = 1.0
 
     def cases(self, tier, rng):
         nc = self.colors
         k = 0
         L = 3 if tier == "quick" else 4
+        keys = list(VIEWERS)
+        # round 3 — the pickers as hub listeners: the viewer is given a dataset, every layer is removed
+        # (four ways), a dataset is added again, and components are added / removed / renamed /
+        # reordered: the empty-then-refill phase at every position of every pair (thorough: triple) of
+        # component ops; all four viewer classes (the image / profile viewer-state pickers offer
+        # coordinates only — those histories check that nothing breaks), subsets as further layers
+        for c in keys:
+            tm = ['std', 'dask'] if c in ('sc', 'hi') else ['bare', 'drv']
+            for pre in ([['app', 0], ['app', 1]], [['app', 0], ['app', 1], ['ng']]):
+                yield [tm, nc, c, pre + [['vad', 0], ['vrd', 0], ['vad', 0], ['ac', 0, 'num'], ['rc', 0, 1]]]
+                yield [tm, nc, c, pre + [['vad', 0], ['rem', 0], ['app', 0], ['vad', 0], ['ro', 0], ['ac', 0, 'num']]]
+                yield [tm, nc, c, pre + [['vad', 0], ['vad', 1], ['vrd', 0], ['vrd', 1], ['vad', 1], ['ac', 1, 'num'], ['rn', 1, 0]]]
+        va = [o for o in VP_REFILL_ALPHA if tier != "quick" or o != ['ac', 1, 'cat']]
+        for seq in itertools.product(va, repeat=2 if tier == "quick" else 3):
+            seq = [list(o) for o in seq]
+            for pos in range(len(seq) + 1):
+                for empty in VP_EMPTY:
+                    for refill in ([['vad', 0]], [['vad', 1]]):
+                        ops = [['app', 0], ['app', 1], ['vad', 0]] + seq[:pos] + [list(o) for o in empty] + refill + seq[pos:]
+                        c = keys[k % 4]
+                        if c in ('sc', 'hi'):
+                            tm = list(VP_REFILL_TMPLS[(k // 4) % len(VP_REFILL_TMPLS)])
+                        else:
+                            tm = [['bare', 'drv'], ['drv', 'bare']][(k // 4) % 2]
+                        if _vp_comp_valid(tm, ops):
+                            yield [tm, nc, c, ops]
+                        k += 1
         for ops in view_sequences(VCORE, L):
             if _canonical_view(ops):
                 yield [ND, nc, ('sc', 'hi')[k % 2], ops]
@@ -912,7 +1031,7 @@ class VPick(View):
                         cur[f] = not cur[f]
                         ops.append(['vfl', p, f, cur[f]])
                     yield [list(pair), nc, cls, ops]
-        for i in range(150 if tier == "quick" else 6000):
+        for i in range(100 if tier == "quick" else 6000):
             cls = ('sc', 'hi')[i % 2]
             ops = random_view_seq(rng, rng.randint(4, 12), 3, cls)
             tm = 3 if i % 3 == 0 else _savable([rng.choice(TMPLS) for _ in range(3)], ops)
@@ -990,8 +1109,13 @@ def _values(kind, k, d=None):
     return np.resize(np.array(['2021-01-01', '2021-01-02', '2021-01-03'], dtype='datetime64[D]'), shape)
 
 
+def _sub_state(helper, hub):
+    """the helper as a hub listener: (`_hub` is set, the hub holds subscriptions of the helper)"""
+    return ['u', getattr(helper, '_hub', None) is not None, helper in hub._subscriptions]
+
+
 class ComboWorld:
-    def __init__(self, n, idx):
+    def __init__(self, n, idx, has_dc=True):
         self.tmpls = tmpl_list(n, 'std')
         self.data = [make_data(t, i) for i, t in enumerate(self.tmpls)]
         self.cids = []
@@ -1001,7 +1125,12 @@ class ComboWorld:
         self.dc = DataCollection(self.data)
         self.state = ExState()
         self.prop = PROP_BY_IDX[idx]
-        self.helper = ComponentIDComboHelper(self.state, self.prop, self.dc)
+        # with the data collection (subscribed at construction) or without it, the way viewer and
+        # layer states build their pickers (subscribes lazily, in append_data)
+        if has_dc:
+            self.helper = ComponentIDComboHelper(self.state, self.prop, self.dc)
+        else:
+            self.helper = ComponentIDComboHelper(self.state, self.prop)
         self.ctx = []
         self.err = False
         self.keep = [self.data, self.dc, self.state, self.helper]
@@ -1062,6 +1191,8 @@ class ComboWorld:
             self.helper.remove_data(self.data[op[1]])
         elif k == 'hm':
             self.helper.set_multiple_data([self.data[d] for d in op[1:] if d < n])
+        elif k == 'hc':
+            self.helper.clear()
         elif k == 'fl':
             setattr(self.helper, FLAG_ATTR[op[1]], bool(op[2]))
         elif k == 'dr':
@@ -1123,13 +1254,13 @@ class ComboWorld:
         sel = h.selection
         s = None if sel is None else (self._c(sel) if isinstance(sel, ComponentID) else 'X')
         return [F, H, ['c'] + [self._choice(c) for c in h.choices], ['s', s], ['e', bool(self.err)],
-                ['q', len(self.ctx)]]
+                ['q', len(self.ctx)], _sub_state(h, self.dc.hub)]
 
 
 def _run_combo(case):
-    n, idx, ops = case
+    n, idx, ops = case[:3]
     gc.disable()
-    w = ComboWorld(n, idx)
+    w = ComboWorld(n, idx, bool(case[3]) if len(case) > 3 else True)
     snaps = [w.snapshot()]
     try:
         for op in ops:
@@ -1143,7 +1274,7 @@ def _run_combo(case):
 
 CD = 2  # datasets in the combo world
 # initial ids: dataset i owns 5i (pixel) 5i+1 (world) 5i+2 (c) 5i+3 (t) 5i+4 (x); new ones from 5*CD
-COMBO_ALPHA = ([['ha', 0], ['ha', 1], ['hr', 0], ['hm', 1, 0], ['hm'],
+COMBO_ALPHA = ([['ha', 0], ['ha', 1], ['hr', 0], ['hm', 1, 0], ['hm'], ['hc'],
                 ['ac', 0, 'num'], ['ac', 0, 'cat'], ['ac', 1, 'dt'], ['ac', 0, 'ext'], ['ac', 1, 'dask'], ['ad', 0], ['rc', 0, 0], ['rc', 0, 2], ['rc', 0, 3],
                 ['rn', 0, 0], ['ro', 0], ['rp', 0, 0], ['dr', 0], ['da', 0], ['do'], ['dc']] +
                [['fl', f, b] for f in ('numeric', 'categorical', 'pixel', 'world', 'derived', 'none') for b in (True, False)] +
@@ -1152,7 +1283,7 @@ COMBO_ALPHA = ([['ha', 0], ['ha', 1], ['hr', 0], ['hm', 1, 0], ['hm'],
 
 
 COMBO_CORE = [o for o in COMBO_ALPHA if o not in (
-    [['hm'], ['ac', 0, 'cat'], ['ac', 1, 'dt'], ['ac', 0, 'ext'], ['ac', 1, 'dask'], ['rc', 0, 3], ['da', 0], ['fl', 'categorical', True],
+    [['hm'], ['hc'], ['ac', 0, 'cat'], ['ac', 1, 'dt'], ['ac', 0, 'ext'], ['ac', 1, 'dask'], ['rc', 0, 3], ['da', 0], ['fl', 'categorical', True],
      ['fl', 'numeric', True], ['fl', 'derived', True], ['fl', 'datetime', False], ['sel', 1], ['sel', 10],
      ['hm', 1, 0], ['rn', 0, 0], ['fl', 'world', False]])]
 
@@ -1166,6 +1297,12 @@ FLAG_COMBOS = list(itertools.product([True, False], repeat=7))
 COMBO_SMALL = [['hr', 0], ['ha', 0], ['ac', 0, 'num'], ['ad', 0], ['rc', 0, 0], ['rc', 0, 2], ['ro', 0], ['rp', 0, 0],
                ['dr', 0], ['do'], ['dc'], ['fl', 'numeric', False], ['fl', 'pixel', True], ['fl', 'derived', False],
                ['fl', 'none', True], ['sel', None], ['sel', 2], ['sel', 4], ['sel', 5]]
+
+
+COMBO_REFILL_ALPHA = [['ac', 0, 'num'], ['ac', 1, 'num'], ['rc', 0, 0], ['rc', 0, 2], ['rn', 0, 0], ['ro', 0], ['ro', 1],
+                      ['do'], ['dc'], ['sel', 2]]
+COMBO_REFILL_PHASES = [[['hr', 0], ['ha', 0]], [['hc'], ['ha', 0]], [['hm'], ['hm', 0]], [['hr', 0], ['ha', 1]],
+                       [['hm'], ['hm', 1, 0]]]
 
 
 def combo_n(ops):
@@ -1219,8 +1356,10 @@ def random_combo_seq(rng, length, tmpls=None):
             op = ['ha', d]
         elif r < 0.17:
             op = ['hr', d]
-        elif r < 0.21:
+        elif r < 0.19:
             op = ['hm'] + [rng.randrange(CD_) for _ in range(rng.randint(0, 3))]
+        elif r < 0.21:
+            op = rng.choice([['hc'], ['hm']])
         elif r < 0.30:
             kind = rng.choice(AC_KINDS)
             if tmpls[d] in AC_INVALID.get(kind, ()):
@@ -1295,6 +1434,32 @@ class Combo(Family):
             yield [CD, idx, [['ha', 0], ['sel', 4], ['do'], ['rc', 0, 2], ['do'], ['dc'], ['ac', 0, 'num'], ['dc']]]
             yield [CD, idx, [['ha', 0], ['ha', 1], ['sel', 7], ['do'], ['dr', 1], ['dc']]]
             yield [CD, idx, [['ha', 0], ['fl', 'none', True], ['sel', None], ['fl', 'none', False], ['rp', 0, 0]]]
+        # round 3 — the helper as a hub listener.  A helper is emptied and refilled (five ways: remove_data /
+        # clear / set_multiple_data([]) then append_data / set_multiple_data, with the same or the other
+        # dataset) at every position of every sequence of two ops over the component alphabet (add /
+        # remove / rename / reorder on a dataset in / formerly in / not in the helper, delay block, a
+        # selection), with and without data collection (lazy subscription: all viewer pickers)
+        for has_dc in (False, True):
+            for idx in idxs[:2]:
+                yield [CD, idx, [['ha', 0], ['hr', 0], ['ha', 0], ['ac', 0, 'num']], has_dc]
+                yield [CD, idx, [['ha', 0], ['hc'], ['hm', 0], ['sel', 2], ['rc', 0, 0]], has_dc]
+                yield [CD, idx, [['hm', 0, 1], ['hm'], ['hm', 1], ['do'], ['ro', 1], ['dc']], has_dc]
+        for has_dc in (False, True):
+            ra = [o for o in COMBO_REFILL_ALPHA if tier != "quick" or o not in (['rc', 0, 2], ['ro', 1])]
+            for seq in itertools.product(ra, repeat=2 if tier == "quick" else 3):
+                seq = [list(o) for o in seq]
+                for pos in range(len(seq) + 1):
+                    for ph in COMBO_REFILL_PHASES:
+                        ops = [['ha', 0]] + seq[:pos] + [list(o) for o in ph] + seq[pos:]
+                        if combo_valid(ops):
+                            yield [CD, idxs[k % 5], ops, has_dc]
+                            k += 1
+        # the core alphabet in pairs on a helper without data collection
+        for seq in itertools.product(COMBO_CORE + [['hc']], repeat=2):
+            ops = [['ha', 0]] + [list(o) for o in seq]
+            if combo_valid(ops):
+                yield [combo_n(ops), idxs[k % 5], ops, False]
+                k += 1
         # component kinds x flags: every dataset template (together: every component class glue has)
         # under every one of the 128 flag combinations, flags set before / after the helper gets the
         # dataset, in both orders; pairs of templates; an extended and a dask component added and
@@ -1349,7 +1514,8 @@ class Combo(Family):
         return any(op[0] in ('ha', 'hm') for op in case[2]) and any(op[0] in ('ac', 'ad', 'rc', 'ro', 'rp', 'fl', 'dr') for op in case[2])
 
     def shrink(self, case):
-        return _shrink_ops([case[0], case[1]], case[2], lambda ops: combo_valid(ops, case[0]))
+        for c in _shrink_ops([case[0], case[1]], case[2], lambda ops: combo_valid(ops, case[0])):
+            yield c + list(case[3:])
 
     def signature(self, case, po, res):
         return {"construct": "combo"}
@@ -1362,11 +1528,17 @@ class ComboRandom(Combo):
     budget_share = 0.5
 
     def cases(self, tier, rng):
-        n = 3000 if tier == "quick" else 60000
+        n = 1600 if tier == "quick" else 60000
         for i in range(n):
             # a third of the histories on the standard datasets, the rest on random templates
             tm = ['std'] * CD if i % 3 == 0 else [rng.choice(TMPLS) for _ in range(CD)]
-            yield [tm, [0, 1, -1, -2, 5][i % 5], random_combo_seq(rng, rng.randint(4, 15 if tier == "quick" else 40), tm)]
+            ops = random_combo_seq(rng, rng.randint(4, 15 if tier == "quick" else 40), tm)
+            if i % 4 == 1 and len(ops) > 3:
+                # an empty-then-refill phase somewhere in the first half
+                j = rng.randrange(len(ops) // 2 + 1)
+                d = rng.randrange(CD)
+                ops[j:j] = [rng.choice([['hc'], ['hm']]), rng.choice([['ha', d], ['hm', d], ['hm', d, 1 - d]])]
+            yield [tm, [0, 1, -1, -2, 5][i % 5], ops, i % 2 == 0]
 
 
 # ---- dataset pickers ------------------------------------------------------------------------
@@ -1468,6 +1640,9 @@ DCOMBO_ALPHA = [['da', 0], ['da', 1], ['da', 2], ['dr', 0], ['dr', 1], ['ha', 0]
                 ['rl', 0], ['sel', 0], ['sel', 1], ['sel', 2], ['do'], ['dc']]
 
 
+DCOMBO_REFILL_ALPHA = [['dr', 0], ['da', 0], ['dr', 1], ['rl', 0], ['sel', 0], ['sel', 1], ['do'], ['dc']]
+
+
 class DCombo(Family):
     name = "dcombo"
     exhaustive = True
@@ -1489,6 +1664,15 @@ class DCombo(Family):
             yield [2, False, idx, [0, 1], [['ha', 0], ['ha', 1], ['sel', 1], ['dr', 1]]]
             yield [2, False, idx, [0], [['ha', 0], ['do'], ['dr', 0], ['dc']]]
             yield [2, True, idx, [0, 1], [['sel', 1], ['do'], ['dr', 1], ['da', 1], ['dc']]]
+        # round 3: a manual helper emptied and refilled at every position of every pair (thorough: triple)
+        # of collection / label / selection / delay ops
+        for seq in itertools.product(DCOMBO_REFILL_ALPHA, repeat=2 if tier == "quick" else 3):
+            seq = [list(o) for o in seq]
+            for pos in range(len(seq) + 1):
+                for ph in ([['hr', 0], ['ha', 0]], [['hm'], ['ha', 0]], [['hr', 0], ['hm', 1, 0]], [['hm'], ['ha', 1]]):
+                    ops = [['ha', 0]] + seq[:pos] + [list(o) for o in ph] + seq[pos:]
+                    yield [2, False, idxs[k % 4], [0, 1], ops]
+                    k += 1
         # small blocks first: a budget cut-off under machine load then only drops the tail of the last one
         blocks = [(False, [], L), (False, [0, 1], L), (True, [], L), (True, [0, 1], L + 1)]
         for auto, in_dc, n in blocks:
@@ -1833,7 +2017,8 @@ PROP = Property(
               "C18.class_offered_iff", "C18.kinds_covered", "C18.refresh_order", "C18.refresh_nodup", "C18.refresh_none",
               "C18.selection_valid_after_refresh", "C18.selection_valid", "C18.picker_after_refresh_ok",
               "C18.explicit_none_accepted",
-              "C18.combo_history_valid", "C18.dcombo_history_valid",
+              "C18.combo_history_valid", "C18.combo_history_valid_as_coded", "C18.unsubscribe_without_reset_breaks",
+              "C18.dcombo_history_valid",
               "C18.image_axes_distinct", "C18.image_axes_spec", "C18.image_1d_reference_crashes"],
     families=[Kinds(), Axes(), Combo(), ComboRandom(), DCombo(), VPick(), View(), ViewRandom()],
     trusted_base=["the `echo` callback-property library (SelectionCallbackProperty._choices_updated / __set__, delay_callback, CallbackList) is modelled (its selection rule) or assumed (callback ordering), validated by the correspondence families",
